@@ -134,6 +134,19 @@ Theorem save_crash_safe_refuted_pre_fix :
 Proof. exact save_crash_safe_refuted_before_fix. Qed.
 Print Assumptions save_crash_safe_refuted_pre_fix.
 
+(* The converse bridge: for ALL histories without annotation events (InUse: the RPC layer's part of the
+   contract, which the updater model does not contain) the outputs of the updater / save / restart model
+   pass the observable checker, whatever the failure patterns of the saves and whatever the directory.
+   Hence when the implementation's observations equal the model's (verdict "agree") the checker accepts:
+   verdict code 3 cannot occur.  cfg = what start-up read (unique keys). *)
+Theorem model_passes_checker :
+  forall (cfg : config) (d : fs entry) (h : list event),
+    Forall wf_event h -> consistent h -> case_distinct h -> NoDup (map fst cfg) ->
+    Forall (fun e => match e with InUse _ _ => False | _ => True end) h ->
+    C16_check cfg (combine h (snd (run (init_sys cfg d) h))) = true.
+Proof. exact model_passes. Qed.
+Print Assumptions model_passes_checker.
+
 (* What the observable checker's "true" means, independent of the model. *)
 Theorem checker_sound :
   forall cfg0 pre e o post,
